@@ -1245,6 +1245,30 @@ class Interp:
                 ast.copy_location(tr, st)
                 ast.fix_missing_locations(tr)
                 return self.exec_stmt(tr, fr)
+        if len(st.items) == 1 and isinstance(st.items[0].context_expr, ast.Call):
+            cf = st.items[0].context_expr
+            try:
+                ci = self.prog._resolve_class_expr(fr.fi.module, cf.func)
+            except Exception:
+                ci = None
+            if ci is not None and ci.find_method('__enter__') is not None and ci.find_method('__exit__') is not None:
+                # with C(...) [as x]: BODY   for a package class C with __enter__ / __exit__:
+                #   cm = C(...); [x =] cm.__enter__(); try: BODY finally: cm.__exit__(None, None, None)
+                # (an __exit__ that swallows exceptions is not modelled: the exceptional path continues as from a finally)
+                tmp = f'__cm_{getattr(st, "lineno", 0)}'
+                mk = lambda n_: ast.Name(id=tmp, ctx=n_)
+                enter = ast.Call(func=ast.Attribute(value=mk(ast.Load()), attr='__enter__', ctx=ast.Load()), args=[], keywords=[])
+                leave = ast.Call(func=ast.Attribute(value=mk(ast.Load()), attr='__exit__', ctx=ast.Load()),
+                                 args=[ast.Constant(None), ast.Constant(None), ast.Constant(None)], keywords=[])
+                first = ast.Assign(targets=[mk(ast.Store())], value=cf, type_comment=None)
+                second = (ast.Assign(targets=[st.items[0].optional_vars], value=enter, type_comment=None)
+                          if st.items[0].optional_vars is not None else ast.Expr(value=enter))
+                tr = ast.Try(body=st.body, handlers=[], orelse=[], finalbody=[ast.Expr(value=leave)])
+                seq = [first, second, tr]
+                for x_ in seq:
+                    ast.copy_location(x_, st)
+                    ast.fix_missing_locations(x_)
+                return self.exec_block(seq, fr)
         return self._with_items(st, fr, 0)
 
     def _with_items(self, st, fr, k):
